@@ -343,7 +343,7 @@ func (it *Interp) load(p *Ptr) Value {
 		case Poison:
 			panic(unsupported("read of poisoned global: " + x.why))
 		default:
-			panic(fmt.Sprintf("internal: load path through %T", v))
+			panic(unsupported(fmt.Sprintf("load path through %T", v)))
 		}
 	}
 	if po, ok := v.(Poison); ok && it.top != nil && !it.top.lenient {
@@ -370,7 +370,7 @@ func setPath(v Value, path []int, nv Value) Value {
 	case Poison:
 		panic(unsupported("write into poisoned global: " + x.why))
 	}
-	panic(fmt.Sprintf("internal: setPath through %T", v))
+	panic(unsupported(fmt.Sprintf("store path through %T", v)))
 }
 
 func (it *Interp) store(p *Ptr, v Value) {
